@@ -95,7 +95,7 @@ class dictattr(dict):
         >>> assert (d & ['a', 'b', 'x']).keys() == d.keys() & ['a', 'b', 'x']
         """
         other = set(as_list(other))
-        return type(self)(**{key : value for key, value in self.items() if key in set(self.keys()) & other}) 
+        return type(self)({key : value for key, value in self.items() if key in set(self.keys()) & other}) 
 
     def __add__(self, other):
         """
@@ -178,7 +178,7 @@ class dictattr(dict):
         if isinstance(value, tuple):
             return [self[v] for v in value]
         elif is_rng(value):
-            return type(self)(**{k : self[k] for k in value})
+            return type(self)({k : self[k] for k in value})
         res = self
         if value in res or not is_str(value):
             return super(dictattr, self).__getitem__(value)
@@ -270,7 +270,7 @@ class dictattr(dict):
         >>> assert d.rename(['A', 'B', 'C']) == d.relabel(upper)
         """
         keys = relabel(list(self.keys()), *args, **relabels)
-        return type(self)(**{keys.get(k,k) : v for k, v in self.items()})
+        return type(self)({keys.get(k,k) : v for k, v in self.items()})
 
     def rename(self, *args, **relabels):
         """
